@@ -182,6 +182,13 @@ type finding struct {
 	Status   string `json:"status"` // "known" or "fixed"
 	What     string `json:"what"`
 	Commit   string `json:"commit,omitempty"`
+	// The entry only covers runs in which the scheduler actually parked a
+	// goroutine at every one of these call sites (the window the defect needs);
+	// the same class seen in any other run is a new violation.
+	RequiresParks []string `json:"requires_parks,omitempty"`
+	// ... and in which every one of these fault kinds fired.
+	RequiresFaults []string `json:"requires_faults,omitempty"`
+	seen           int
 }
 
 func loadFindings() []finding {
@@ -197,11 +204,23 @@ func loadFindings() []finding {
 	return fs
 }
 
-func isKnown(fs []finding, prop, class string) *finding {
+func isKnown(fs []finding, prop, class string, r *Result) *finding {
+next:
 	for i := range fs {
-		if fs[i].Status == "known" && fs[i].Property == prop && fs[i].Class == class {
-			return &fs[i]
+		if fs[i].Status != "known" || fs[i].Property != prop || fs[i].Class != class {
+			continue
 		}
+		for _, site := range fs[i].RequiresParks {
+			if r.Parks[site] == 0 {
+				continue next
+			}
+		}
+		for _, k := range fs[i].RequiresFaults {
+			if r.Faults[k] == 0 {
+				continue next
+			}
+		}
+		return &fs[i]
 	}
 	return nil
 }
@@ -223,9 +242,11 @@ type agg struct {
 	infra            []string
 	wallMs           int64
 	viol             map[string]*violCase // key prop|class
+	findings         []finding
 }
 
 type violCase struct {
+	common              map[string]bool // park sites / fault kinds present in every run showing this class
 	prop, class, detail string
 	seed                uint64
 	res                 *Result
@@ -277,11 +298,31 @@ func (a *agg) add(seed uint64, r *Result, wantProp string) {
 			"faults": r.Faults, "event_hash": r.EventHash, "violations": len(r.Violations)})
 	}
 	for _, v := range r.Violations {
+		if f := isKnown(a.findings, v.Property, v.Class, r); f != nil {
+			f.seen++
+			continue
+		}
 		k := v.Property + "|" + v.Class
 		vc := a.viol[k]
+		feat := map[string]bool{}
+		for s, n := range r.Parks {
+			if n > 0 {
+				feat["park "+s] = true
+			}
+		}
+		for s, n := range r.Faults {
+			if n > 0 {
+				feat["fault "+s] = true
+			}
+		}
 		if vc == nil {
-			a.viol[k] = &violCase{prop: v.Property, class: v.Class, detail: v.Detail, seed: seed, res: r, count: 1}
+			a.viol[k] = &violCase{prop: v.Property, class: v.Class, detail: v.Detail, seed: seed, res: r, count: 1, common: feat}
 		} else {
+			for f := range vc.common {
+				if !feat[f] {
+					delete(vc.common, f)
+				}
+			}
 			vc.count++
 			// keep the cheapest witness
 			if r.NChoices < vc.res.NChoices {
@@ -293,12 +334,16 @@ func (a *agg) add(seed uint64, r *Result, wantProp string) {
 
 func hasViolation(r *Result, prop, class string) bool {
 	for _, v := range r.Violations {
-		if v.Property == prop && v.Class == class {
+		if v.Property == prop && v.Class == class && isKnown(knownForShrink, prop, class, r) == nil {
 			return true
 		}
 	}
 	return false
 }
+
+// knownForShrink: while shrinking/replaying a new violation the candidate must
+// stay outside every known finding, or the shrinker would slide into one.
+var knownForShrink []finding
 
 // shrink minimises the choice vectors of a failing run while the same
 // (property, class) is still reported by a fresh worker process.
@@ -473,6 +518,8 @@ func cmdCheck(args []string) int {
 	}()
 	base := baseSeed()
 	a := newAgg()
+	a.findings = loadFindings()
+	knownForShrink = a.findings
 	var mu sync.Mutex
 	var wg sync.WaitGroup
 	deadline := time.Now().Add(time.Duration(budget) * time.Second)
@@ -502,7 +549,6 @@ func cmdCheck(args []string) int {
 	runWall := time.Since(t0).Seconds()
 
 	// ---- violations: shrink, replay, report ----
-	findings := loadFindings()
 	exit := 0
 	var lines []string
 	var keys []string
@@ -512,12 +558,14 @@ func cmdCheck(args []string) int {
 	sort.Strings(keys)
 	nViol := 0
 	var replayInfo []any
+	for i := range a.findings {
+		f := &a.findings[i]
+		if f.Status == "known" && f.seen > 0 {
+			lines = append(lines, fmt.Sprintf("KNOWN-FINDING: property=%s %s (class %s, seen in %d runs)", f.Property, f.What, f.Class, f.seen))
+		}
+	}
 	for _, k := range keys {
 		vc := a.viol[k]
-		if f := isKnown(findings, vc.prop, vc.class); f != nil {
-			lines = append(lines, fmt.Sprintf("KNOWN-FINDING: property=%s %s (class %s, seen in %d runs)", vc.prop, f.What, vc.class, vc.count))
-			continue
-		}
 		nViol++
 		min, evals := shrink(pd, vc.prop, vc.class, vc.seed, vc.res.Choices, 400)
 		// confirm: replay the minimised vector twice in fresh processes
@@ -555,7 +603,13 @@ func cmdCheck(args []string) int {
 		}
 		lines = append(lines, fmt.Sprintf("VIOLATION property=%s replay=%s", vc.prop, path))
 		lines = append(lines, fmt.Sprintf("  class=%s runs=%d shrink_evals=%d choices=%d detail=%s", vc.class, vc.count, evals, countChoices(rf.Choices), rf.Detail))
-		replayInfo = append(replayInfo, map[string]any{"property": vc.prop, "class": vc.class, "replay": path, "runs": vc.count})
+		var common []string
+		for f := range vc.common {
+			common = append(common, f)
+		}
+		sort.Strings(common)
+		lines = append(lines, fmt.Sprintf("  present in every violating run: %v", common))
+		replayInfo = append(replayInfo, map[string]any{"property": vc.prop, "class": vc.class, "replay": path, "runs": vc.count, "common_features": common})
 		exit = 1
 	}
 	if len(a.infra) > 0 {
